@@ -1,5 +1,6 @@
 import SockModel.Model.SendLoopLemmas
 import SockModel.Model.ToDosLemmas
+import SockModel.Generated.Funcs
 /-!
 # C07  Timeouts mean what the documentation says, for every blocking call
 
@@ -420,3 +421,65 @@ theorem legacy_sleeps_past_todo :
   refine ⟨-1, { todos := [⟨1, 2147483648 * 1000000, 0⟩], now := 0 }, ⟨1, 2147483648 * 1000000, 0⟩, rfl, by decide, by decide⟩
 
 end SockModel.ToDos
+
+/-! ## Source-derived tie (DESIGN.md §0.7)
+
+`SockModel.Gen.*` (Generated/Funcs.lean) is regenerated on every run by tools/cxx2lean.py from the clang AST of
+the CURRENT /repo/src: ToMsec, the wait.h deadline flavours, MinDuration, the timeout-sign dispatch of Driver::DriverImpl::Step.
+Each theorem below states that the generated function and the hand-written model function agree for ALL
+arguments; a change of the C++ function changes the generated definition and the theorem stops checking. -/
+namespace SockModel.Props.C07
+open SockModel SockModel.Deadline
+
+theorem tie_toMsec (c : Int) : Gen.ToMsec c = Deadline.toMsec c := by
+  simp only [Gen.ToMsec, toMsec, intMax, Int.bmod_eq_emod]
+  repeat' split
+  all_goals omega
+
+theorem tie_unlimited_timeLeft (now : Int) : Gen.Unlimited_TimeLeft = (Deadline.unlimited now).timeLeft := rfl
+theorem tie_unlimited_remaining (now : Int) : Gen.Unlimited_Remaining = (Deadline.unlimited now).remaining := rfl
+theorem tie_zero_timeLeft (now : Int) : Gen.ZeroLimited_TimeLeft = (Deadline.zero now).timeLeft := rfl
+theorem tie_zero_remaining (now : Int) : Gen.ZeroLimited_Remaining = (Deadline.zero now).remaining := rfl
+
+theorem tie_limited_timeLeft (now dl : Int) :
+    Gen.DeadlineLimited_TimeLeft now dl = (Deadline.limited now dl).timeLeft := rfl
+
+theorem tie_limited_remaining (now dl : Int) :
+    Gen.DeadlineLimited_Remaining now dl = (Deadline.limited now dl).remaining := by
+  simp only [Gen.DeadlineLimited_Remaining, Deadline.remaining, toMs, nsPerMs]
+  repeat' split
+  all_goals omega
+
+theorem tie_minDuration (l r : Int) : Gen.MinDuration l r = Deadline.minDuration l r := by
+  simp only [Gen.MinDuration, minDuration, toMs, nsPerMs]
+  repeat' split
+  all_goals omega
+
+/-- `Deadline.make`: flavour chosen by the sign of the timeout as in `Driver::DriverImpl::Step`, and the
+limited deadline is the constructor initialiser `now + timeout` -/
+theorem tie_make (t now : Int) :
+    Deadline.make t now =
+      match Gen.Step_dispatch false t with
+      | .todosUnlimited => .unlimited now
+      | .todosZero => .zero now
+      | _ => .limited now (Gen.DeadlineLimited_deadline now t) := by
+  simp only [Deadline.make, Gen.Step_dispatch, Gen.DeadlineLimited_deadline, nsPerMs]
+  split <;> (try split) <;> simp_all
+
+theorem tie_step (clamp : Bool) (fuel : Nat) (t : Int) (s : ToDos.St) :
+    ToDos.step clamp fuel t s =
+      match Gen.Step_dispatch s.todos.isEmpty t with
+      | .socketsOnly => ToDos.pollSockets clamp t s
+      | .todosUnlimited =>
+        let r := ToDos.stepTodos fuel (.unlimited s.now) s
+        ToDos.pollSockets clamp r.1 r.2
+      | .todosZero =>
+        let r := ToDos.stepTodos fuel (.zero s.now) s
+        ToDos.pollSockets clamp r.1 r.2
+      | .todosLimited =>
+        let r := ToDos.stepTodos fuel (.limited s.now (Gen.DeadlineLimited_deadline s.now t)) s
+        ToDos.pollSockets clamp r.1 r.2 := by
+  simp only [ToDos.step, Deadline.make, Gen.Step_dispatch, Gen.DeadlineLimited_deadline, nsPerMs]
+  repeat' split
+  all_goals simp_all
+end SockModel.Props.C07
